@@ -473,7 +473,7 @@ func c10Check(c *harness.Ctx) {
 func init() {
 	harness.Register(&harness.Check{
 		Property: "C10", Level: "model_checking", NeedsConc: true, QuickS: 200, ThoroughS: 1500,
-		Rule:   "stateless model checking of the real (rewritten) corebgp: 13 connection scripts (refused / stalled / late dial, OpenSent, OpenConfirm, Established in both directions, collision, damping, active WriteUpdate callers, two peers) x {Close, DeletePeer} issued at EVERY step index of the default execution and at the first quiescent point, each explored over all schedules within the delay bound (quick 1, thorough 2; quiescent trigger +1) with happens-before caching; vector-clock race detection on every instrumented field/array/map access in every execution; distinct_nontrivial = distinct observable outcomes",
+		Rule:   "stateless model checking of the real (rewritten) corebgp: 16 connection scripts (refused / stalled / late dial, OpenSent, OpenConfirm, Established in both directions, collision, damping, active WriteUpdate callers, two peers, a burst of inbound connections, reconnect with writers, a peer that stopped reading on a bounded-window network) x {Close, DeletePeer, Close with a concurrent AddPeer, Close with an inbound connection arriving} issued at EVERY step index of the default execution and at the first quiescent point, each explored over all schedules within the delay bound (quick 1, thorough 2; quiescent trigger +1) with happens-before caching; vector-clock race detection on every instrumented field/array/map access in every execution; distinct_nontrivial = distinct observable outcomes",
 		Assume: []string{"delay-bounded schedules", "virtual network (A3)", "race detector covers instrumented struct-field/array/map accesses of the package (A5)", "goroutine leak rule: after the call returned the library goroutines are run to quiescence without clock advance; a goroutine that still exists then is blocked forever"},
 		Run:    c10Check,
 		Replay: scnReplay("C10", func(name string) *Scn {
